@@ -398,10 +398,14 @@ def run_df(ctx, case):
             arg = np_arg(st['arg'], st['dt'])
             if st.get('asfield'):
                 arg = scratch_field(ctx, st['arg'], st['dt'])
+            if st.get('own') is not None:
+                arg = src['c%d' % st['own']]          # a column of the frame that is being filtered
             r = src.apply_filter(arg, ddf=dst)
             assert r is (src if dst is None else dst)
         elif k == 'index':
             arg = np_arg(st['arg'], st.get('dt', 'int64'))
+            if st.get('own') is not None:
+                arg = src['c%d' % st['own']]          # a column of the frame that is being re-indexed
             r = src.apply_index(arg, ddf=dst)
             assert r is (src if dst is None else dst)
         elif k == 'sort':
@@ -524,6 +528,8 @@ def features(case, model):
     f.append('op:' + op)
     if isinstance(model, str):
         f.append('err:' + model.split(':')[0] + (':' + model.split(':')[1] if model.startswith('EXC') else ''))
+    if op == 'df' and any(st.get('own') is not None for st in case['steps']):
+        f.append('df:argument-is-own-column' + ('-inplace' if case['steps'][0]['dst'] is None else '-ddf'))
     if op == 'kf':
         n = max(len(case['idx']) - 1, 0)
         if len(case['flt']) != n: f.append('kf:filter-length-mismatch')
@@ -822,6 +828,24 @@ def gen(tier, rng):
                     {'name': 2, 'kind': 'cat', 'dtype': 'int8', 'key': KEY, 'data': [x + 1 for x in flat[n:]]}]
             for by in ([1], [1, 2], [2, 1]):
                 yield {'op': 'df', 'world': [cols, E], 'steps': [{'k': 'sort', 'src': 0, 'arg': by, 'dst': (1 if (sum(flat) + len(by)) % 2 else None)}]}
+    # own-column arguments: the filter / index array is a column of the frame being changed, at the first, a middle
+    # and the last position (in the in-place form the argument is itself rewritten while the columns are processed)
+    for n in range(1, 5 if big else 4):
+        strs = [POOL_S[i % len(POOL_S)] + str(i) for i in range(n)]
+        for pos in (0, 1, 2):
+            for flt in itertools.product([0, 1], repeat=n):
+                for fdt in ('bool', 'int8'):
+                    cols = [{'name': 0, 'kind': 'idx', 'data': strs},
+                            {'name': 1, 'kind': 'num', 'dtype': 'int32', 'data': list(range(10, 10 + n))}]
+                    cols.insert(pos, {'name': 9, 'kind': 'num', 'dtype': fdt, 'data': list(flt)})
+                    for dst in (None, 1):
+                        yield {'op': 'df', 'world': [cols, E], 'steps': [{'k': 'filter', 'src': 0, 'dt': fdt, 'arg': list(flt), 'dst': dst, 'own': 9}]}
+            for ix in itertools.product(range(n), repeat=n):
+                cols = [{'name': 0, 'kind': 'idx', 'data': strs},
+                        {'name': 1, 'kind': 'num', 'dtype': 'int32', 'data': list(range(10, 10 + n))}]
+                cols.insert(pos, {'name': 9, 'kind': 'num', 'dtype': 'int64', 'data': list(ix)})
+                for dst in (None, 1):
+                    yield {'op': 'df', 'world': [cols, E], 'steps': [{'k': 'index', 'src': 0, 'arg': list(ix), 'dst': dst, 'dt': 'int64', 'own': 9}]}
     # invalid key lists
     fa = frame_all(2)
     for by in ([], [9], [1, 9]):
@@ -926,6 +950,8 @@ def shrink(case):
                 for st in case['steps']:
                     if st['k'] in ('sort', 'sort_on'):
                         used |= set(st['arg'])
+                    if st.get('own') is not None:
+                        used.add(st['own'])
                 if w0[i]['name'] in used:
                     continue
                 yield dict(case, world=[w0[:i] + w0[i + 1:]] + case['world'][1:])
